@@ -4,6 +4,7 @@ package store
 
 // Counterparts of the verification hooks in verif_export.go: no-ops in normal builds.
 
-func verifResolveSpawned()        {}
-func verifResolveFinished()       {}
-func verifAfterCacheLayer(string) {}
+func verifResolveSpawned()                 {}
+func verifResolveFinished()                {}
+func verifAfterCacheLayer(string)          {}
+func verifBeforeRecordError(string, error) {}
